@@ -58,6 +58,68 @@ func typeSwitchCases(fn *ssa.Function, ifaceSuffix string) map[string]int {
 	return out
 }
 
+// noMatchPreserves: on the path of fn where no case of the type switch over the oneof matches (the failure edge of
+// every type assertion on it), every return hands back the very value the function was given (its first parameter of
+// the result's type) and a nil error: a kind without a case passes through unchanged.
+func noMatchPreserves(fn *ssa.Function, ifaceSuffix string) bool {
+	isAssertIf := func(b *ssa.BasicBlock) bool {
+		if len(b.Instrs) == 0 {
+			return false
+		}
+		iff, ok := b.Instrs[len(b.Instrs)-1].(*ssa.If)
+		if !ok {
+			return false
+		}
+		ex, ok := iff.Cond.(*ssa.Extract)
+		if !ok || ex.Index != 1 {
+			return false
+		}
+		ta, ok := ex.Tuple.(*ssa.TypeAssert)
+		return ok && strings.HasSuffix(ta.X.Type().String(), ifaceSuffix)
+	}
+	n, okAll := 0, true
+	for _, ret := range core.EffectiveReturns(fn) {
+		reach, _ := core.PathQuery{SkipEdge: func(b *ssa.BasicBlock, succ int) bool { return succ == 0 && isAssertIf(b) }}.Reaches(fn.Blocks[0], 0, func(in ssa.Instruction) bool { return in == ssa.Instruction(ret) })
+		if !reach {
+			continue
+		}
+		// a return that is guarded by a successful assertion is not on the no-match path
+		matched := false
+		for _, g := range core.GuardsOf(ret) {
+			if g.CondTrue() && isAssertIf(g.If.Block()) {
+				matched = true
+			}
+		}
+		if matched {
+			continue
+		}
+		n++
+		vals := core.ReturnValues(ret)
+		if len(vals) == 0 {
+			okAll = false
+			continue
+		}
+		same := false
+		core.WithHost(fn, func() {
+			os := core.Origins(vals[0])
+			if len(os) == 1 {
+				if p, isP := os[0].(*ssa.Parameter); isP && p.Parent() == fn && types.Identical(p.Type(), vals[0].Type()) {
+					same = true
+				}
+			}
+		})
+		if !same {
+			okAll = false
+		}
+		for _, v := range vals[1:] {
+			if isErrorType(v.Type()) && !core.IsNilConst(v) {
+				okAll = false
+			}
+		}
+	}
+	return n > 0 && okAll
+}
+
 type converterSpec struct {
 	Pkg, Recv, Name string
 	Iface           string            // oneof interface suffix
@@ -272,6 +334,7 @@ func c12(w *core.World, r *core.Report) {
 			vars = gnVars
 		}
 		cases := typeSwitchCases(f, cs.Iface)
+		preserves := noMatchPreserves(f, cs.Iface)
 		for _, v := range vars {
 			short := strings.TrimPrefix(v, "TypedValue_")
 			site := core.Site(f, "variant %s", short)
@@ -285,7 +348,17 @@ func c12(w *core.World, r *core.Report) {
 				continue
 			}
 			if reason, ok := cs.Missing[short]; ok {
-				r.OK("ONEOF", site, w.Pos(f.Pos()), "not a case: "+reason)
+				if strings.Contains(reason, "(preserves)") {
+					// the stated policy is checked, not believed
+					r.Check(preserves, "ONEOF", site, w.Pos(f.Pos()), "not a case; the no-match path must return the input unchanged")
+				} else {
+					r.OK("ONEOF", site, w.Pos(f.Pos()), "not a case: "+reason)
+				}
+				continue
+			}
+			if _, listed := cs.Missing["EmptyVal"]; listed && preserves && strings.Contains(cs.Missing["EmptyVal"], "(preserves)") {
+				// a converter whose policy for kinds without a case is "hand the input back": any kind may lack a case
+				r.OK("ONEOF", site, w.Pos(f.Pos()), "not a case: the no-match path returns the input unchanged (verified on the CFG)")
 				continue
 			}
 			if reason, ok := cs.Missing["*"]; ok {
@@ -476,6 +549,14 @@ func c12(w *core.World, r *core.Report) {
 			continue
 		}
 		have := stringSwitchConsts(f)
+		// the table form of the switch: the keys of a package-level map of converters looked up by the type name
+		for _, c := range core.Calls(f) {
+			if _, table := dispatchTable(w, c); table != nil {
+				for k := range table {
+					have[k] = true
+				}
+			}
+		}
 		for _, y := range yangTypes {
 			site := core.Site(f, "type %s", y)
 			if have[y] {
